@@ -1,1 +1,29 @@
-(* Front/Print.v -- stub, to be filled *)
+(* Front/Print.v -- printers (abstract syntax -> token list) for the sub-languages covered by Front/ParseProofs /
+   Props/C07.  Locations are irrelevant to the parser outside string literals: tokens are printed at (0, 0).
+   Numerals are abstracted: the printer is given the digit string and the theorems assume that the decimal parser
+   maps it to the number (so every spelling Rust's FromStr accepts is covered, e.g. "007" and "+7"). *)
+From Coq Require Import String.
+From A1 Require Export Front.Parse.
+Local Open Scope N_scope.
+
+Definition T (s : str) : token := Text 0 0 s.
+Definition P (c : N) : token := Separator 0 0 c.
+
+Definition tag_number (t : atag) : N :=
+  match t with TagUniversal n | TagApplication n | TagContext n | TagPrivate n => n end.
+
+(* "[" is consumed by next_with_opt_tag; this is what Tag::try_from sees *)
+Definition print_tag (t : atag) (num : str) : list token :=
+  match t with
+  | TagUniversal _ => [T (KW "UNIVERSAL"); T num]
+  | TagApplication _ => [T (KW "APPLICATION"); T num]
+  | TagPrivate _ => [T (KW "PRIVATE"); T num]
+  | TagContext _ => [T num]
+  end.
+
+(* [ tag ] in front of a type word *)
+Definition print_opt_tag (t : option atag) (num : str) : list token :=
+  match t with
+  | None => []
+  | Some tg => P C_LBRACKET :: print_tag tg num ++ [P C_RBRACKET]
+  end.
